@@ -86,6 +86,7 @@ type holder struct {
 	end        int64  // atomic: min tick taken before any call of rel; inf = never called
 	cancelTick *int64 // atomic: tick taken before cancel() of its context; inf = not (yet) cancelled
 
+	lim    int  // limiter the holder belongs to: 0 = the scenario's main limiter, k>0 = e.extraLim[k-1]
 	nested bool // acquired on a context that already carried a holder (set before the holder is published)
 
 	inTR   int32 // atomic: TemporarilyRelease nesting depth currently executing (owner only)
@@ -117,6 +118,7 @@ type env struct {
 	holders  []*holder
 	actors   []*actor
 	nextH    int32
+	extraLim []int // sizes of further limiters (ids 1..), see newLimiter
 	epiFirst int32 // first holder id of the capacity-check epilogue (0 = not started)
 
 	wg sync.WaitGroup // script goroutines and their helpers
@@ -160,11 +162,26 @@ func (a *actor) ev(e *env, h int, k evKind, d int) int64 {
 
 // acquire calls Acquire on ctx and registers the holder.
 func (e *env) acquire(a *actor, ctx context.Context, kind int, cancelTick *int64) *holder {
+	return e.acquireLim(a, ctx, kind, cancelTick, 0)
+}
+
+// newLimiter registers a further limiter of size m (attached by the scenario
+// with concurrencylimiter.With on some context) and returns its id. Limiter 0
+// is the scenario's main limiter of size e.n.
+func (e *env) newLimiter(m int) int {
+	e.mu.Lock()
+	defer e.mu.Unlock()
+	e.extraLim = append(e.extraLim, m)
+	return len(e.extraLim)
+}
+
+// acquireLim is acquire for a context whose innermost With is limiter lim.
+func (e *env) acquireLim(a *actor, ctx context.Context, kind int, cancelTick *int64, lim int) *holder {
 	id := int(atomic.AddInt32(&e.nextH, 1)) - 1
 	a.ev(e, id, evAcqCall, 0)
 	hctx, rel := concurrencylimiter.Acquire(ctx)
 	t := a.ev(e, id, evAcqRet, 0)
-	h := &holder{id: id, owner: a.id, kind: kind, ctx: hctx, rel: rel, start: t, end: inf, cancelTick: cancelTick,
+	h := &holder{id: id, owner: a.id, kind: kind, ctx: hctx, rel: rel, start: t, end: inf, cancelTick: cancelTick, lim: lim,
 		nested: kind == ctxNormal && ctx != e.base}
 	e.mu.Lock()
 	e.holders = append(e.holders, h)
@@ -398,6 +415,8 @@ func holding(h *holder) []span {
 }
 
 type overlap struct {
+	lim      int       // limiter whose bound was exceeded (meaningful when at != 0)
+	n        int       // its size
 	scripted int       // the same maximum over the scripted part only (without the capacity check)
 	max      int       // maximum number of simultaneously holding holders
 	at       int64     // first tick at which more than n were holding (0 if never)
@@ -406,8 +425,27 @@ type overlap struct {
 
 // sweep computes the maximum overlap of all definitely-holding spans.
 func (e *env) sweep() overlap {
+	res := e.sweepLim(0, e.n)
 	e.mu.Lock()
-	hs := append([]*holder(nil), e.holders...)
+	extra := append([]int(nil), e.extraLim...)
+	e.mu.Unlock()
+	for k, m := range extra {
+		if o := e.sweepLim(k+1, m); o.at != 0 && res.at == 0 {
+			res.at, res.holders, res.lim, res.n = o.at, o.holders, o.lim, o.n
+		}
+	}
+	return res
+}
+
+// sweepLim is the sweep over the holders of one limiter of size n.
+func (e *env) sweepLim(lim, n int) overlap {
+	e.mu.Lock()
+	var hs []*holder
+	for _, h := range e.holders {
+		if h.lim == lim {
+			hs = append(hs, h)
+		}
+	}
 	e.mu.Unlock()
 	type pt struct {
 		t int64
@@ -428,7 +466,7 @@ func (e *env) sweep() overlap {
 		}
 		return pts[i].d < pts[j].d
 	})
-	var res overlap
+	res := overlap{lim: lim, n: n}
 	active := map[*holder]bool{}
 	cur, curS := 0, 0
 	epi := int(atomic.LoadInt32(&e.epiFirst))
@@ -448,7 +486,7 @@ func (e *env) sweep() overlap {
 		if curS > res.scripted {
 			res.scripted = curS
 		}
-		if cur > e.n && res.at == 0 {
+		if cur > n && res.at == 0 {
 			res.at = p.t
 			for h := range active {
 				res.holders = append(res.holders, h)
@@ -587,10 +625,10 @@ func (e *env) verdict(run *vlib.Run, i int, desc map[string]interface{}) overlap
 		hist = hist[len(hist)-120:]
 	}
 	w := map[string]interface{}{
-		"what":              fmt.Sprintf("%d goroutines were between Acquire and release (outside TemporarilyRelease) at logical tick %d; limit n=%d", len(ov.holders), ov.at, e.n),
-		"n":                 e.n,
+		"what":              fmt.Sprintf("%d goroutines were between Acquire and release (outside TemporarilyRelease) at logical tick %d; limit n=%d (limiter #%d of the scenario)", len(ov.holders), ov.at, ov.n, ov.lim),
+		"n":                 ov.n,
 		"observed_overlap":  len(ov.holders),
-		"expected":          fmt.Sprintf("<= %d", e.n),
+		"expected":          fmt.Sprintf("<= %d", ov.n),
 		"holders_at_tick":   hs,
 		"history":           hist,
 		"history_format":    "tick goroutine holder event nesting-depth; ticks come from one atomic counter",
